@@ -25,6 +25,7 @@ CONSTANTS
   MaxSteps = 0
   RationalOnly = TRUE
   Twins = FALSE
+  Chain = FALSE
   NeedDt = FALSE
   BindLeaves = TRUE
   EmitOn = TRUE
